@@ -284,6 +284,10 @@ class Executor(ExprMixin, StmtMixin, CallMixin, ContractMixin):
             else:
                 ends = self.exec_block(st, fs.node.body)
                 rep.paths = len(ends)
+                # vacuity canary from the same run: `ensures False` on an exit must be refutable,
+                # i.e. the path condition of at least one exit is satisfiable
+                rep.canary = [Obligation(self.fn_name, 'canary', e.flow, e.pc + e.facts, z3.BoolVal(False), e.trail)
+                              for e in ends]
                 for e in ends:
                     self.check_exit(e, c, fs, is_init)
             missing = [a for a in c.asserts if id(a) not in self.asserts_seen]
